@@ -103,15 +103,20 @@ class Run:
     pass
 
 
-def infer(models, opts, pre_merge_hook=None):
-    """models: list of (name, samples). Returns Run with generator, registry (after merge + names)."""
+def infer(models, opts, pre_merge_hook=None, shared=None):
+    """models: list of (name, samples). Returns Run with generator, registry (after merge + names).
+    shared: a Run of an earlier call with the same pseudo-type / dict-keys options whose MetadataGenerator (and pseudo-type
+    registry) is used again, as a program that keeps one generator object for many documents does"""
     run = Run()
-    run.str_registry = make_str_registry(opts.get("registry", ["IntString", "FloatString", "BooleanString"]))
-    run.generator = MetadataGenerator(
-        str_types_registry=run.str_registry,
-        dict_keys_regex=lib_regex(opts.get("dkr") or []) or None,
-        dict_keys_fields=list(opts.get("dkf") or []) or None,
-    )
+    if shared is not None:
+        run.str_registry, run.generator = shared.str_registry, shared.generator
+    else:
+        run.str_registry = make_str_registry(opts.get("registry", ["IntString", "FloatString", "BooleanString"]))
+        run.generator = MetadataGenerator(
+            str_types_registry=run.str_registry,
+            dict_keys_regex=lib_regex(opts.get("dkr") or []) or None,
+            dict_keys_fields=list(opts.get("dkf") or []) or None,
+        )
     run.registry = ModelRegistry(*make_cmps(opts.get("merge") or []))
     run.root_ptrs = []
     for name, samples in models:
